@@ -72,7 +72,8 @@ func buildPipeline(c *core.Ctx, R string) *pipeline {
 					continue
 				}
 				ci := &chanInfo{make: mc, name: fn.Name() + "/" + chanVarName(mc)}
-				ci.flow = core.ForwardFlow([]ssa.Value{mc}, pl.idx, modFollow)
+				// (a channel may be made in a helper and handed back, alone or inside a container)
+				ci.flow = core.FlowOpts{Idx: pl.idx, Follow: modFollow, Returns: true, ReturnsAll: true, Callers: callersIndex(c)}.Run([]ssa.Value{mc})
 				pl.chans = append(pl.chans, ci)
 			}
 		}
@@ -224,6 +225,7 @@ func r23ChannelLifeCycle(c *core.Ctx) {
 			senders[ls.Parent()] = true
 		}
 		closers := fnSet(ci.closes)
+		liftedClosers := map[*ssa.Function]bool{} // helpers that close on behalf of the sending function
 		// the source channel is written by implementations of processing.Source; each is its own sender+closer
 		c.Check(R, "has-sender-and-closer/"+ci.name, ci.make.Pos(), len(ci.sends) > 0 && len(ci.closes) > 0,
 			fmt.Sprintf("%d send sites in %s; %d close sites in %s", len(ci.sends), fnNames(senders), len(ci.closes), fnNames(closers)),
@@ -232,7 +234,7 @@ func r23ChannelLifeCycle(c *core.Ctx) {
 			construct := fmt.Sprintf("sender-closes/%s/%s", ci.name, fn.Name())
 			var cl []*ssa.Call
 			for _, x := range ci.closes {
-				if x.Parent() == fn {
+				if liftInto(c, x, fn, ci.flow) != nil {
 					cl = append(cl, x)
 				}
 			}
@@ -241,40 +243,62 @@ func r23ChannelLifeCycle(c *core.Ctx) {
 				continue
 			}
 			closeI := cl[0]
+			// what stands for the close in the sending function: the close, or the call of the helper that does it
+			closeRep := liftInto(c, closeI, fn, ci.flow)
+			lifted2 := closeRep != ssa.Instruction(closeI)
+			if lifted2 {
+				liftedClosers[closeI.Parent()] = true
+			}
 			c.OK(R, construct, closeI.Pos(), "the sending function closes the channel")
 			// close once: not in a loop, unless it is the close-all loop over the container of channels
 			nx, container := rangeNextOf(closeI.Call.Args[0])
 			if nx != nil {
 				// close-all loop: every iteration closes; the loop is reached after the send loop
-				r, _ := core.Search{Fn: fn, From: nx, Target: func(in ssa.Instruction) bool { return in == ssa.Instruction(nx) || core.IsReturn(in) },
+				hf := closeI.Parent()
+				r, _ := core.Search{Fn: hf, From: nx, Target: func(in ssa.Instruction) bool { return in == ssa.Instruction(nx) || core.IsReturn(in) },
 					Barrier: instrIs(closeI), Edge: tupleOkEdge(nx, 0, 0)}.Run()
-				c.Check(R, fmt.Sprintf("close-all-no-skip/%s/%s", ci.name, fn.Name()), closeI.Pos(), !r && ci.flow[container],
+				okLoop := !r && ci.flow[container]
+				if lifted2 {
+					// in a helper: the helper cannot return without having walked the loop
+					miss, _ := core.Search{Fn: hf, Target: core.IsReturn, Barrier: instrIs(nx)}.Run()
+					okLoop = okLoop && !miss
+				}
+				c.Check(R, fmt.Sprintf("close-all-no-skip/%s/%s", ci.name, fn.Name()), closeI.Pos(), okLoop,
 					"every iteration of the range over the channel container closes its channel (no skip, break or early return)",
 					"the loop closing the target channels can skip a channel (continue/break/early return): that target's writer never finishes and wg.Wait blocks forever")
+				var anchor ssa.Instruction = nx
+				if lifted2 {
+					anchor = closeRep
+				}
 				for _, s := range sendsInLifted(lifted, fn) {
 					c.Check(R, fmt.Sprintf("close-after-sends/%s/%s", ci.name, fn.Name()), closeI.Pos(),
-						core.PostDominatesNormal(nx, s) && !core.ReachableFrom(closeI, s),
+						core.PostDominatesNormal(anchor, s) && !core.ReachableFrom(closeRep, s),
 						"the close-all loop is on every normal path after the send, and no send is reachable from a close",
 						"a normal return is reachable from the send without passing the close-all loop, or a send is reachable after a close (send on closed channel panics)")
 				}
 			} else {
-				c.Check(R, fmt.Sprintf("close-not-in-loop/%s/%s", ci.name, fn.Name()), closeI.Pos(), !core.InLoop(closeI),
+				okOnce := !core.InLoop(closeI) && !core.InLoop(closeRep)
+				if lifted2 {
+					miss, _ := core.Search{Fn: closeI.Parent(), Target: core.IsReturn, Barrier: instrIs(closeI)}.Run()
+					okOnce = okOnce && !miss
+				}
+				c.Check(R, fmt.Sprintf("close-not-in-loop/%s/%s", ci.name, fn.Name()), closeI.Pos(), okOnce,
 					"close is outside every loop", "close(channel) is inside a loop: a second close or a send after close panics")
 				for i, s := range sendsInLifted(lifted, fn) {
 					c.Check(R, fmt.Sprintf("close-after-sends/%s/%s/send%d", ci.name, fn.Name(), i), closeI.Pos(),
-						core.PostDominatesNormal(closeI, s) && !core.ReachableFrom(closeI, s),
+						core.PostDominatesNormal(closeRep, s) && !core.ReachableFrom(closeRep, s),
 						"close post-dominates the send on all normal-return paths and no send is reachable from the close",
 						fmt.Sprintf("send @%s: a normal return is reachable without closing the channel (consumer blocks forever), or the send is reachable after the close (panic)", c.P.Pos(s.Pos())))
 				}
 				// functions that send must close even when nothing was sent: close on every normal path from entry
-				r, _ := core.Reaches(fn, nil, core.IsReturn, instrIs(closeI))
+				r, _ := core.Reaches(fn, nil, core.IsReturn, instrIs(closeRep))
 				c.Check(R, fmt.Sprintf("close-on-every-normal-path/%s/%s", ci.name, fn.Name()), closeI.Pos(), !r,
 					"every normal return of the sender is preceded by the close (also for an empty stream)",
 					"the sender can return normally without closing the channel")
 			}
 		}
 		for fn := range closers {
-			if !senders[fn] {
+			if !senders[fn] && !liftedClosers[fn] {
 				c.Bad(R, fmt.Sprintf("closer-is-sender/%s/%s", ci.name, fn.Name()), fn.Pos(), "channel is closed by "+fn.String()+" which does not send on it; the sender(s) "+fnNames(senders)+" may send after the close (panic)")
 			}
 		}
@@ -285,13 +309,47 @@ func r23ChannelLifeCycle(c *core.Ctx) {
 	c.FloorPrefix(R, "close-after-sends/", 3)
 }
 
+// liftInto: the instruction of function `into` that stands for `in`: `in` itself if it is there, or the synchronous
+// call through which a helper performs it (helper called from exactly one place, the call handing on one of the
+// tracked values), climbing at most three calls.  nil when `in` is not performed on behalf of `into`.
+func liftInto(c *core.Ctx, in ssa.Instruction, into *ssa.Function, flow map[ssa.Value]bool) ssa.Instruction {
+	callers := callersIndex(c)
+	fn := in.Parent()
+	for depth := 0; depth < 4; depth++ {
+		if fn == into {
+			return in
+		}
+		sites := callers(fn)
+		if len(sites) != 1 {
+			return nil
+		}
+		call, ok := sites[0].(*ssa.Call)
+		if !ok {
+			return nil // go / defer: a different goroutine or a different time
+		}
+		if flow != nil {
+			passes := false
+			for _, a := range call.Call.Args {
+				if flow[a] {
+					passes = true
+				}
+			}
+			if !passes {
+				return nil
+			}
+		}
+		in, fn = call, call.Parent()
+	}
+	return nil
+}
+
 // liftSends returns, per send on the channel, the instruction that stands for it in the function responsible for the
 // channel: the send itself, or the synchronous call through which a non-closing helper performs it.
 func liftSends(c *core.Ctx, ci *chanInfo) []ssa.Instruction {
 	callers := callersIndex(c)
 	closes := func(fn *ssa.Function) bool {
 		for _, x := range ci.closes {
-			if x.Parent() == fn {
+			if x.Parent() == fn || liftInto(c, x, fn, ci.flow) != nil {
 				return true
 			}
 		}
@@ -650,7 +708,8 @@ func r25WaitGroups(c *core.Ctx) {
 			}
 			c.Check(R, "done-deferred-first/"+gname, g.Pos(), firstOK, "the goroutine's first action is `defer wg.Done()`", "wg.Done is not deferred before anything else in the goroutine: a panic or early return leaves Wait blocked / Done is skipped")
 			// Wait post-dominates the go statement
-			c.Check(R, "wait-after-go/"+gname, wait.Pos(), wait.Parent() == g.Parent() && core.PostDominatesNormal(wait, g),
+			gRep := liftInto(c, g, wait.Parent(), w.flow) // the go statement may sit in a helper that is handed the group
+			c.Check(R, "wait-after-go/"+gname, wait.Pos(), gRep != nil && core.PostDominatesNormal(wait, gRep),
 				"wg.Wait is on every normal path after the go statement", "a normal return is reachable after the go statement without wg.Wait: the function returns while the goroutine is still running")
 		}
 		// every normal return is preceded by Wait
@@ -701,14 +760,19 @@ func r25WaitGroups(c *core.Ctx) {
 			n := 0
 			for _, ci := range pl.chans {
 				for _, cl := range ci.closes {
-					if cl.Parent() != wt.SSA {
+					rep := liftInto(c, cl, wt.SSA, ci.flow)
+					if rep == nil {
 						continue
 					}
 					n++
-					if core.ReachableFrom(wait, cl) {
+					if core.ReachableFrom(wait, rep) {
 						okOrder = false
 					}
-					if nx, _ := rangeNextOf(cl.Call.Args[0]); nx != nil && !core.Dominates(nx, wait) {
+					if rep != ssa.Instruction(cl) {
+						if !core.Dominates(rep, wait) {
+							okOrder = false
+						}
+					} else if nx, _ := rangeNextOf(cl.Call.Args[0]); nx != nil && !core.Dominates(nx, wait) {
 						okOrder = false
 					}
 				}
